@@ -1,4 +1,5 @@
 import Proofs.HeapCkptAlias
+import Proofs.CkptGenEq
 
 /-!
 # C07 — a saved checkpoint restores an equivalent agent
@@ -13,7 +14,7 @@ expressible.  Worlds range over every history (`CReachable`) of clone / write / 
 (C01) and spawn / load / loadInto operations, from any rule table and any initial agent.
 -/
 namespace HeapCkpt
-open Heap
+open Heap CkptGenEq
 
 /-- **Round trip, values.**  Save agent `i` of any world; whatever happens afterwards (the
     original trains on, is mutated, is discarded — a crash —, other agents come and go: `w2` is
@@ -240,5 +241,145 @@ example :
     let w := World.init [Rule.fresh, Rule.fresh] [2, 1]
     ∃ b, save w 0 = some b ∧ view (load w b []) 1 = view (load w b []) 0 := by
   decide
+
+/-! ## source translation (`Gen/CkptGen.lean`, generated by harness/py2lean_ckpt.py from
+    agilerl/algorithms/core/base.py, agilerl/wrappers/agent.py)
+
+  The theorems above take the fill specification `sp` as a parameter; "the repaired code restores every cell"
+  is the instance `sp = []`.  Here `sp` is COMPUTED from the tables translated from the source text:
+  `genFate path cls part` (save ∘ load for one part of one attribute class, obtained by evaluating the generated
+  guarded steps of `load_checkpoint` / `load` / `AgentWrapper.load_checkpoint` against the generated save tables of
+  `get_checkpoint_dict` / `AgentWrapper.save_checkpoint`) and `specOf` (a cell whose part is not `saved` becomes an
+  `init` exception).  `Layout` says, per attribute group, its class and the part each cell belongs to. -/
+
+/-- the generated tables are the model's tables: rule table of saving, fate of every part on the three load
+    paths, phase order of the three load methods, wrapper merge order -/
+theorem C07_source_translation_tables :
+    (∀ k, Saved.ofGen (CkptGen.ckptRule (AKind.toGen k)) = ckptRule k) ∧
+    genFate = fate ∧
+    CkptGen.load_checkpoint_phases.map Phase.ofGen = loadCheckpointPhases ∧
+    CkptGen.load_phases.map Phase.ofGen = loadPhases ∧
+    CkptGen.wrapper_load_checkpoint_phases.map Phase.ofGen = wrapperLoadCheckpointPhases ∧
+    (∀ agentHas, ∀ k ∈ ["wrapper_cls", "wrapper_init_dict", "wrapper_attrs", "learn", "get_action", "network_info", "registry", ""],
+      heldSource (CkptGen.wrapper_file agentHas k) = wrapperFile agentHas k) :=
+  ⟨gen_ckptRule_eq, gen_fate_eq, gen_load_checkpoint_phases_eq, gen_load_phases_eq,
+   gen_wrapper_load_checkpoint_phases_eq, gen_wrapper_merge_eq⟩
+
+/-- **Every attribute group of the heap model is saved by value and comes back** — by the GENERATED rule table
+    and fate table: whatever `Heap.Kind` a group has (network, re-synchronised target, optimizer, list, registry,
+    tensor, array, other object, callable, immutable), `get_checkpoint_dict` writes a non-empty list of its parts by
+    value, and each of its parts is `saved` on both load paths and on the wrapper's path. -/
+theorem C07_source_translation_every_group_saved (k : Heap.Kind) :
+    savesByValue (CkptGen.ckptRule (AKind.toGen (akindOf k))) = true ∧
+    ∀ p, ∀ q ∈ (clsOf k).parts, genFate p (clsOf k) q = .saved := by
+  constructor
+  · cases k <;> simp only [akindOf] <;> decide +kernel
+  · intro p q hq
+    rw [gen_fate_eq]
+    cases k <;> cases p <;> simp only [clsOf] at hq ⊢ <;> revert q <;> decide
+
+/-- **Round trip, values, with the generated table** (new-agent path `Algo.load`): for every layout of savable
+    attribute groups the restored agent's view is the original's view at save time, whatever happened in between. -/
+theorem C07_source_translation_roundtrip_values (lay : Layout) (hlay : lay.Savable .new) (junk : Nat → Nat → Nat)
+    (w : World) (i : Nat) (b : Blob) (hs : save w i = some b) (w2 : World) :
+    view (loadBy (genFate .new) junk lay w2 b) w2.agents.length = view w i := by
+  unfold loadBy
+  rw [gen_spec_eq .new junk lay hlay]
+  exact C07_roundtrip_values w i b hs w2
+
+/-- … and for the in-place path `load_checkpoint` (also through the wrapper, `p = .wrapperInplace`): loading the
+    file of agent `i` into an existing agent `j` makes `j` observe what `i` observed when it was saved, every
+    third agent observes what it observed before, and `j` lives in cells nobody knew. -/
+theorem C07_source_translation_load_into (p : LoadPath) (lay : Layout) (hlay : lay.Savable p)
+    (junk : Nat → Nat → Nat) (rules : List Rule) (w : World) (i : Nat) (b : Blob) (hs : save w i = some b)
+    (w2 w' : World) (hw2 : CReachable rules w2) (j : Nat) (h : loadIntoBy (genFate p) junk lay w2 b j = some w') :
+    view w' j = view w i ∧ (∀ m, m ≠ j → view w' m = view w2 m) ∧ WF w' ∧ Owned w' ∧ CReachable rules w' ∧
+    ∃ aj, w'.agents[j]? = some (some aj) ∧
+      ∀ (k : Nat) (ck : List Nat) (a : Nat), aj[k]? = some ck → a ∈ ck → w2.heap.length ≤ a := by
+  unfold loadIntoBy at h
+  rw [gen_spec_eq p junk lay hlay] at h
+  obtain ⟨_, _, h3, h4, h5, h6, h7⟩ := C07_load_into_existing rules w2 w' hw2 b [] j h
+  exact ⟨C07_load_into_roundtrip w i b hs w2 w' j h, h3, h4, h5, h6, h7⟩
+
+/-- **Separation with the generated table**: load the same file twice (agents `n` and `n+1`).  Each restored agent
+    consists of cells allocated by its own `load`; no cell of either is reached by the original, by any other
+    agent, or by the other restored agent; nobody's view changes; the world stays reachable. -/
+theorem C07_source_translation_fresh (lay : Layout) (junk : Nat → Nat → Nat) (rules : List Rule) (w : World)
+    (hw : CReachable rules w) (b : Blob) :
+    let w1 := loadBy (genFate .new) junk lay w b
+    let w2 := loadBy (genFate .new) junk lay w1 b
+    let n := w.agents.length
+    CReachable rules w2 ∧ WF w2 ∧ Owned w2 ∧
+    (∀ m, m < n → view w2 m = view w m) ∧ view w2 n = view w1 n ∧
+    ∃ a1 a2, w2.agents[n]? = some (some a1) ∧ w2.agents[n + 1]? = some (some a2) ∧
+      (∀ (k : Nat) (ck : List Nat) (a : Nat), a1[k]? = some ck → a ∈ ck → w.heap.length ≤ a) ∧
+      (∀ (k : Nat) (ck : List Nat) (a : Nat), a2[k]? = some ck → a ∈ ck → w1.heap.length ≤ a) ∧
+      ∀ (m : Nat) (am : Agent) (l : Nat) (cl : List Nat) (a : Nat), m ≠ n + 1 →
+        w2.agents[m]? = some (some am) → am[l]? = some cl → a ∈ cl →
+        ∀ (k : Nat) (ck : List Nat), a2[k]? = some ck → a ∉ ck := by
+  intro w1 w2 n
+  have hn1 : w1.agents.length = n + 1 := by
+    show (w.agents ++ [_]).length = _
+    simp [n]
+  obtain ⟨_, _, hr1, ⟨a1, ha1, hfresh1, _⟩, hview1⟩ := C07_roundtrip_fresh rules w hw b (specOf (genFate .new) junk lay)
+  obtain ⟨hwf2, hown2, hr2, ⟨a2, ha2, hfresh2, hsep2⟩, hview2⟩ :=
+    C07_roundtrip_fresh rules w1 hr1 b (specOf (genFate .new) junk lay)
+  rw [hn1] at ha2 hsep2 hview2
+  refine ⟨hr2, hwf2, hown2, fun m hm => ?_, hview2 n (by omega), a1, a2, ?_, ha2, hfresh1, hfresh2, hsep2⟩
+  · exact (hview2 m (by omega)).trans (hview1 m hm)
+  · show (w1.agents ++ [_])[n]? = _
+    rw [List.getElem?_append_left (by omega)]
+    exact ha1
+
+/-- **Round trip, then continue = continue.**  Let `step` be a learning step as in `C07_same_future` (a function of
+    the agent's own view, frame for the others, preserving `Inv`).  Save agent `i`, load the file with the
+    generated table into a new agent: original and restored agent have equal views after ANY sequence of identical
+    batches. -/
+theorem C07_source_translation_same_future {β} (lay : Layout) (hlay : lay.Savable .new) (junk : Nat → Nat → Nat)
+    (learnStep : List (List Nat) → β → List (List Nat)) (step : World → Nat → β → World) (Inv : World → Prop)
+    (hInv : ∀ w i b, Inv w → Inv (step w i b))
+    (hOwn : ∀ w i b, Inv w → view (step w i b) i = (view w i).map (fun v => learnStep v b))
+    (hFrame : ∀ w i m b, Inv w → m ≠ i → view (step w i b) m = view w m)
+    (rules : List Rule) (w : World) (hw : CReachable rules w) (i : Nat) (hi : i < w.agents.length) (b : Blob)
+    (hs : save w i = some b) (hI : Inv (loadBy (genFate .new) junk lay w b)) (bs : List β) :
+    let w' := loadBy (genFate .new) junk lay w b
+    let j := w.agents.length
+    view (trainBoth step i j bs w') i = view (trainBoth step i j bs w') j := by
+  intro w' j
+  have h1 : view w' j = view w i := C07_source_translation_roundtrip_values lay hlay junk w i b hs w
+  have h2 : view w' i = view w i := by
+    obtain ⟨_, _, _, _, hview⟩ := C07_roundtrip_fresh rules w hw b (specOf (genFate .new) junk lay)
+    exact hview i hi
+  exact (C07_same_future learnStep step Inv hInv hOwn hFrame w' hI i j (by omega) (by rw [h1, h2]) bs).1
+
+/-- the order facts the repaired code relies on, read off the GENERATED phase lists of both load paths: networks
+    are rebuilt and bound before the hooks run, the hooks run before the weights and the detached tensors are
+    written (so nothing a hook installs survives in place of a saved value), optimizers are rebuilt after the
+    networks and their state is loaded after that, the remaining attributes come last -/
+theorem C07_source_translation_phase_order :
+    ∀ l ∈ [CkptGen.load_checkpoint_phases, CkptGen.load_phases],
+      ∀ ab ∈ [(CkptGen.Phase.buildNetworks, CkptGen.Phase.setNetworks), (.setNetworks, .hook), (.hook, .loadWeights),
+              (.hook, .loadDetached), (.setNetworks, .buildOptimizers), (.buildOptimizers, .loadOptState),
+              (.loadOptState, .setAttributes), (.loadWeights, .setAttributes)],
+        ab.1 ∈ l ∧ ab.2 ∈ l ∧ l.idxOf ab.1 < l.idxOf ab.2 := by
+  decide +kernel
+
+/-- the table matters: a load path that never loads the optimizer state (fate `lost` for `optState`, everything
+    else as generated) does NOT give back the saved view -/
+theorem C07_source_translation_table_matters :
+    let f : Cls → Part → Fate := fun c q => if q = .optState then .lost else genFate .new c q
+    let lay : Layout := [(.evolvable .evolvableModule, [.weights, .detached]), (.evolvable .optimizerWrapper, [.optState])]
+    let w := World.init [Rule.fresh, Rule.fresh] [2, 1]
+    ∃ b, save w 0 = some b ∧ view (loadBy f (fun _ _ => 900) lay w b) 1 ≠ view w 0 ∧
+      view (loadBy (genFate .new) (fun _ _ => 900) lay w b) 1 = view w 0 := by
+  decide +kernel
+
+/-- non-vacuity: a concrete savable layout (network with detached tensors, optimizer, list, wrapper attribute) -/
+example : Layout.Savable .new
+    [(.evolvable .evolvableModule, [.weights, .detached]), (.evolvable .optimizerWrapper, [.optState]),
+     (.plain, [.value]), (.wrapperAttr, [.value])] := by
+  intro cp hcp
+  simp only [List.mem_cons, List.not_mem_nil, or_false] at hcp
+  rcases hcp with rfl | rfl | rfl | rfl <;> decide
 
 end HeapCkpt
